@@ -15,7 +15,12 @@ Oracle keys (stable finding classes):
   cwrite-width-rescale    the same width clause with rescale=True
   to_file-{width,nsamples,values,meta}
   tim-{nsamples,values,meta}  dat-{nsamples,values,meta}  spec-{nsamples,values,meta}  fft-{nsamples,values,meta}
-  extract_chans-{width,nsamples,values}   requantize-{width,nsamples,values}
+  extract_chans-{width,nsamples,values,meta}   requantize-{width,nsamples,values,meta}
+  held-timeseries / held-block / held-fourier   the object does not hold (as float32 / complex64) the values it was constructed
+                          from: checked against NumPy's own conversion BEFORE anything is written, so that the expectation of the
+                          round trip never rests on the constructor under test
+  (cwrite-refused-own-type also covers: read-only / strided 1-D uint8 arrays at 1/2/4 bits, a float32 array handed to a 32-bit
+   writer with rescale=True; requantize-values also covers a requantize refused although the blocks have the output's sample type)
 Only the first failing clause of a case is reported (width before count before values before metadata), so that one
 defect does not show up under four keys.
 
@@ -75,24 +80,41 @@ def values_for(rng, dt, nbits, n, kind):
         hi = np.iinfo(d).max
         return np.array([rng.choice([0, hi, rng.randint(0, hi)]) for _ in range(n)]).astype(d)
     if d.kind == "i":
-        return np.array([rng.choice([0, -1, (1 << 24) - 1, -(1 << 24) + 1, rng.randint(-(1 << 24) + 1, (1 << 24) - 1)]) for _ in range(n)]).astype(d)
+        v = np.array([rng.choice([0, -1, (1 << 24) - 1, -(1 << 24) + 1, rng.randint(-(1 << 24) + 1, (1 << 24) - 1)]) for _ in range(n)]).astype(d)
+        if kind == "any" and rng.random() < 0.5:       # integers beyond 2**24 that float32 holds exactly (the Coq model's integer range stops at 2**24)
+            for i in range(n):
+                if rng.random() < 0.3:
+                    v[i] = rng.choice([1 << 24, -(1 << 24), 1 << 40, -(1 << 40), 3 << 39, 1 << 62, -(1 << 62), (rng.randint(1, (1 << 24) - 1)) << rng.randint(1, 38)])
+        return v
     if kind == "int":
         return np.array([rng.choice([0, -1, 16777215, -16777215, rng.randint(-70000, 70000)]) for _ in range(n)]).astype(d)
     v = [rng.choice([0.0, -0.0, 1.5, -2.75, 3.0e-5, -1.0e20, 65504.0, float(np.float32(rng.uniform(-1e3, 1e3))),
                      float(np.float32(rng.uniform(-1, 1) * 10.0 ** rng.randint(-30, 30)))]) for _ in range(n)]
-    return np.array(v, dtype=np.float32).astype(d)
+    a = np.array(v, dtype=np.float32)
+    # every float32 bit pattern is a representable value of a 32-bit file: quiet NaNs (default, with a payload, negative), the
+    # infinities, the smallest / a mid-range / the largest subnormal of either sign, the largest finite value (compared bit for bit)
+    for i in range(n):
+        if rng.random() < 0.12:
+            a.view(np.uint32)[i] = rng.choice(F32_SPECIAL)
+    return a.astype(d)
+
+
+F32_SPECIAL = [0x7FC00000, 0x7FC01234, 0xFFC00001, 0x7F800000, 0xFF800000, 0x00000001, 0x80000001, 0x00400000, 0x007FFFFF, 0x807FFFFF,
+               0x7F7FFFFF, 0xFF7FFFFF, 0x00800000]
 
 
 def meta_values(rng):
-    tsamp = rng.choice([0.001, 6.4e-05, 8.192e-05, float(2.0 ** -rng.randint(8, 16)), rng.uniform(1e-6, 1e-2)])
-    tstart = rng.choice([60000.0, 50000.125, 58849.000011574074, rng.uniform(40000, 70000)])
-    dm = rng.choice([0.0, 12.5, 56.7789, rng.uniform(0, 3000)])
+    tsamp = rng.choice([0.001, 6.4e-05, 8.192e-05, float(2.0 ** -rng.randint(8, 16)), rng.uniform(1e-6, 1e-2),
+                        rng.choice([1e-9, 1.0, 1.0 / 3.0, 10.0 ** rng.uniform(-9, 2)])])
+    tstart = rng.choice([60000.0, 50000.125, 58849.000011574074, rng.uniform(40000, 70000),
+                         rng.choice([0.0, 1.5, 99999.999999999, rng.uniform(0, 1e5)])])
+    dm = rng.choice([0.0, 12.5, 56.7789, rng.uniform(0, 3000), rng.choice([1e-6, 99999.123456789, 10.0 ** rng.uniform(-6, 5)])])
     return tsamp, tstart, dm
 
 
 def check_meta(R, key, h, tsamp, tstart, dm, case, inf=False):
     if inf:
-        ok = (abs(h.tstart - tstart) <= np.spacing(tstart) and abs(h.tsamp - tsamp) <= 1e-14 * abs(tsamp)
+        ok = (abs(h.tstart - tstart) <= abs(np.spacing(tstart)) and abs(h.tsamp - tsamp) <= 1e-14 * abs(tsamp)
               and abs(h.dm - dm) <= 1e-11 * abs(dm))
     else:
         ok = h.tsamp == tsamp and h.tstart == tstart and h.dm == dm
@@ -117,8 +139,11 @@ def run(R: vlib.Run):
     R.rule = ("in-memory dtypes {uint8,uint16,int64,float32,float64} x depths {1,2,4,8,16,32} x shapes (nsamps in {1,2,3,5,..}, "
               "nchans with nchans*nbits%8==0 incl. the smallest) x values representable at the depth and in the dtype (extremes 0 and "
               "max, random; at 32 bits also fractions, negatives, -0.0, tiny/huge magnitudes) x one or two cwrite calls; "
-              "FilterbankBlock.to_file, .tim, .dat/.inf, .spec, .fft/.inf from every dtype; extract_chans / requantize on 8/16/32-bit "
-              "inputs.  A case is non-trivial when it writes >= 1 sample; distinct = distinct (path, dtype, depth, shape, values)")
+              "FilterbankBlock.to_file, .tim, .dat/.inf, .spec, .fft/.inf from every dtype (32-bit values: every float32 bit pattern class -- "
+              "quiet NaNs with payload, infinities, subnormals, largest finite -- and int64 beyond 2**24; Fourier series also handed over as complex128 "
+              "and as real arrays); read-only / strided 1-D arrays at every depth; values NOT representable at the depth for the width clause; "
+              "timing metadata incl. tstart 0 .. 1e5, tsamp 1e-9 .. 100, DM 1e-6 .. 1e5; default product names, explicit inffile=, "
+              "prep_outfile(updates=); extract_chans / requantize on inputs of every depth.  A case is non-trivial when it writes >= 1 sample; distinct = distinct (path, dtype, depth, shape, values)")
     R.trusted += [
         "Coq 8.16.1 kernel + vm_compute",
         "tools/py2coq/gen_c04.py: classifies the array expressions of cwrite (as-is / converted to self.bitsinfo.dtype / refused), reads the "
@@ -136,6 +161,14 @@ def run(R: vlib.Run):
         "(numerical check with the tolerance justified in the module docstring)",
         "rescale=True (BitsInfo.quantize) is outside the model; only the written width is checked for it",
         "arrays are one-dimensional and contiguous, as cwrite documents; sample values of the model are integers (floats: |v| < 2^24 / 2^53)",
+        "at 1, 2 and 4 bits the array handed to cwrite is one-dimensional (read-only and strided ones included): a two-dimensional uint8 array, "
+        "C- or Fortran-ordered, is refused there by the packing kernel's signature (TypeError) although it has the file's sample type; at 8, 16 "
+        "and 32 bits every layout is exercised",
+        "the complex64 array handed to FourierSeries is contiguous: the constructor keeps a strided complex64 view as it is and to_spec / "
+        "to_fft take data.view(np.float32), which NumPy refuses for a non-contiguous array (ValueError 'the last axis must be contiguous'; the "
+        ".inf of to_fft is already written by then, no .fft / .spec data are); strided TimeSeries and FilterbankBlock inputs are exercised",
+        "the count clause for .spec accepts the n complex bins or the 2n float32 words (what nsamples means for a Fourier series is C08's "
+        "subject); for .fft/.inf the count travels in the .inf and must read back as the header handed to to_fft declared it",
     ]
     R.prove("Props/C04.v")
     R.need(["Model/C04_Writer.vo"])
@@ -176,7 +209,9 @@ def run(R: vlib.Run):
                                sample=case if (nbits, dt, si, kind) in ((4, "uint8", 1, "int"), (32, "int64", 1, "int")) else None)
                         refused = None
                         # memory layout of what is handed to cwrite: the same logical (nsamps, nchans) samples in every case
-                        layout = rng.choice(["flat", "flat", "c2d", "f2d", "tview", "strided", "readonly"] if nbits >= 8 else ["flat"])      # the packing kernels take contiguous writable uint8 only: other layouts are refused there (TypeError), not claimed
+                        # at 1/2/4 bits only the one-dimensional layouts: a 2-D array is refused by the packing kernel's signature (TypeError;
+                        # cwrite documents 1-D input, see R.assume).  Read-only and strided 1-D uint8 arrays are written like any other.
+                        layout = rng.choice(["flat", "flat", "c2d", "f2d", "tview", "strided", "readonly"] if nbits >= 8 else ["flat", "flat", "strided", "readonly"])
                         case["layout"] = layout
                         if layout == "c2d":
                             arr = vals.reshape(nsamps, nchans)
@@ -242,7 +277,11 @@ def run(R: vlib.Run):
                 try:
                     with FileWriter(path, mode="w", nbits=nbits, rescale=True) as w:
                         w.cwrite(arr)
-                except Exception:  # noqa: BLE001
+                except Exception as e:  # noqa: BLE001
+                    # a refusal is allowed for an array that is not of the file's sample type; at 32 bits nothing is re-quantised and a
+                    # float32 array IS of the file's type
+                    if nbits == 32 and dt == "float32":
+                        fail("cwrite-refused-own-type", f"cwrite (rescale=True) raised {type(e).__name__} for a float32 array handed to a 32-bit writer", case)
                     continue
                 if os.path.getsize(path) * 8 != n * nbits:
                     fail("cwrite-width-rescale", "rescaled data written at a width other than the declared depth",
@@ -269,6 +308,30 @@ def run(R: vlib.Run):
                     except Exception:  # noqa: BLE001
                         out = None
                     corr_w.append((nbits, dt, vals, out))
+                    # the width clause holds for ALL values, representable or not (C04_written_width)
+                    if out is not None and len(out) * 8 != n * nbits:
+                        fail("cwrite-width", "data written at a sample width other than the declared depth (values not representable at the depth)",
+                             {"path": "FileWriter.cwrite", "dtype": dt, "nbits": nbits, "n": n, "values": small(vals), "data_bytes": len(out),
+                              "expected_bytes": n * nbits // 8})
+            # float values that are NOT representable at the depth (negative, fractional, beyond the maximum, NaN, inf): what is stored is
+            # unspecified, the width is not (oracle only: the conversion float -> unsigned of such values is outside the model)
+            for dt in ("float32", "float64"):
+                n = 8 * rng.randint(1, 4)
+                vals = np.array([rng.choice([-1.5, 300.7, 7.0e4, -3.0e9, 1.0e20, float("nan"), float("inf"), -float("inf"), 0.5, rng.uniform(-1e5, 1e5)])
+                                 for _ in range(n)]).astype(dt)
+                path = os.path.join(d, f"wn_{nbits}_{dt}.bin")
+                case = {"path": "FileWriter.cwrite", "dtype": dt, "nbits": nbits, "n": n, "values": [repr(x) for x in small(vals)]}
+                R.case(("cwrite-nonrepr", dt, nbits, vals.tobytes()), regime="cwrite-bytes")
+                try:
+                    with FileWriter(path, mode="w", nbits=nbits) as w:
+                        w.cwrite(vals)
+                except Exception as e:  # noqa: BLE001  (refused: allowed unless the array has the file's own sample type)
+                    if dt == FILE_DT[nbits]:
+                        fail("cwrite-refused-own-type", f"cwrite raised {type(e).__name__} for an array of the file's own sample type", case)
+                    continue
+                if os.path.getsize(path) * 8 != n * nbits:
+                    fail("cwrite-width", "data written at a sample width other than the declared depth (values not representable at the depth)",
+                         dict(case, data_bytes=os.path.getsize(path), expected_bytes=n * nbits // 8))
 
         # ---------------------------------------------------------------------------------------------
         # 2. FilterbankBlock.to_file
@@ -288,6 +351,9 @@ def run(R: vlib.Run):
                 # the block's own DM record and its header agree (a block whose two DM records differ has no single DM to carry)
                 blk = FilterbankBlock(data, hdr, dm=dm)
                 inmem = blk.data.copy()
+                # independent reference: the block holds, as float32, the values it was built from (NumPy's own conversion of representable values)
+                if not same_bits(inmem, data.astype(np.float32)):
+                    fail("held-block", "the block does not hold (as float32) the values it was constructed from", dict(case, got=small(inmem))); continue
                 try:
                     blk.to_file(path)
                     del blk
@@ -335,6 +401,10 @@ def run(R: vlib.Run):
                 ts = TimeSeries(x, hdr)
                 want = ts.data.copy()
                 case = {"dtype": dt, "n": n, "header_nbits": hb, "values": small(x)}
+                # independent reference: the series holds, as float32, the values it was built from (NumPy's own conversion of representable values)
+                if want.dtype != np.float32 or not same_bits(want, x.astype(np.float32)):
+                    fail("held-timeseries", "the time series does not hold (as float32) the values it was constructed from",
+                         dict(case, path="TimeSeries(x, header)", got=small(want))); continue
                 # .tim
                 R.case(("tim", dt, x.tobytes()), regime="tim")
                 c = dict(case, path="TimeSeries.to_tim/from_tim")
@@ -376,6 +446,9 @@ def run(R: vlib.Run):
                 fs = FourierSeries(z, fh)
                 wantz = fs.data.copy()
                 wantf = wantz.view(np.float32)
+                if wantz.dtype != np.complex64 or not same_bits(wantf, z.view(np.float32)):
+                    fail("held-fourier", "the Fourier series does not hold (as complex64) the values it was constructed from",
+                         dict(case, path="FourierSeries(z, header)", input="complex64", values=small(z.view(np.float32)), got=small(wantf))); continue
                 R.case(("spec", dt, z.tobytes()), regime="spec")
                 c = dict(case, path="FourierSeries.to_spec/from_spec", values=small(wantf))
                 try:
@@ -399,7 +472,7 @@ def run(R: vlib.Run):
                     f = fs.to_fft(base)
                     back = FourierSeries.from_fft(f)
                     # the .fft itself carries no count; the .inf carries the length of the time series (nt), read back as written
-                    if back.data.size != n or back.header.nsamples not in (nt, 2 * n, n):
+                    if back.data.size != n or back.header.nsamples != nt:
                         fail("fft-nsamples", "sample count read from the .fft/.inf differs", dict(c, got=[back.header.nsamples, int(back.data.size)]))
                     elif not same_bits(back.data.view(np.float32), wantf):
                         fail("fft-values", ".fft values differ", dict(c, got=small(back.data.view(np.float32))))
@@ -409,19 +482,170 @@ def run(R: vlib.Run):
                     fail("fft-values", f".fft write / read raised {type(e).__name__}: {e}", c)
                 if rep < (1 if quick else 4) and n <= 20:
                     corr_s.append(("fft", wantf, base + ".fft", "from_fft"))
+                # the in-memory dtype axis for Fourier series: the same bins handed over as complex128, and a REAL array of dtype dt
+                # (n bins re + 0j).  Either is converted to complex64 (representable values: identically) and written as 2n float32 words.
+                zr = np.zeros(n, dtype=np.complex64)
+                zr.real = re_.astype(np.float32)
+                for vname, zin, zexp in (("complex128", z.astype(np.complex128), z), (f"real {dt}", re_, zr)):
+                    expf = zexp.view(np.float32)
+                    cv = dict(case, input=vname, values=small(expf))
+                    vbase = base + ("_c128" if vname == "complex128" else "_real")
+                    R.case(("fourier-in", vname, dt, zin.tobytes()), regime="spec")
+                    try:
+                        fs2 = FourierSeries(zin, fh)
+                        held = np.ascontiguousarray(fs2.data)
+                        if held.dtype != np.complex64 or not same_bits(held.view(np.float32), expf):
+                            fail("held-fourier", "the Fourier series does not hold (as complex64) the values it was constructed from",
+                                 dict(cv, path="FourierSeries(z, header)", got=small(held.view(np.float32) if held.dtype == np.complex64 else held))); continue
+                    except Exception as e:  # noqa: BLE001
+                        fail("held-fourier", f"FourierSeries({vname} array) raised {type(e).__name__}: {e}", dict(cv, path="FourierSeries(z, header)")); continue
+                    c = dict(cv, path="FourierSeries.to_spec/from_spec")
+                    try:
+                        f = fs2.to_spec(vbase + ".spec")
+                        if (os.path.getsize(f) - hdrlen_of(f)) != 8 * n:
+                            fail("spec-nsamples", ".spec data section is not 2n float32 words", dict(c, data_bytes=os.path.getsize(f) - hdrlen_of(f)))
+                        else:
+                            back = FourierSeries.from_spec(f)
+                            if back.data.size != n or back.header.nsamples not in (2 * n, n):
+                                fail("spec-nsamples", "sample count read from the .spec differs", dict(c, got=[back.header.nsamples, int(back.data.size)]))
+                            elif not same_bits(back.data.view(np.float32), expf):
+                                fail("spec-values", ".spec values differ", dict(c, got=small(back.data.view(np.float32))))
+                            else:
+                                check_meta(R, "spec-meta", back.header, tsamp, tstart, dm, c) or fired.add("spec-meta")
+                    except Exception as e:  # noqa: BLE001
+                        fail("spec-values", f".spec write / read raised {type(e).__name__}: {e}", c)
+                    R.case(("fourier-in-fft", vname, dt, zin.tobytes()), regime="fft")
+                    c = dict(cv, path="FourierSeries.to_fft/from_fft")
+                    try:
+                        f = fs2.to_fft(vbase)
+                        if os.path.getsize(f) != 8 * n:
+                            fail("fft-nsamples", ".fft is not 2n float32 words", dict(c, fft_bytes=os.path.getsize(f)))
+                        else:
+                            back = FourierSeries.from_fft(f)
+                            if back.data.size != n or back.header.nsamples != nt:
+                                fail("fft-nsamples", "sample count read from the .fft/.inf differs", dict(c, got=[back.header.nsamples, int(back.data.size)]))
+                            elif not same_bits(back.data.view(np.float32), expf):
+                                fail("fft-values", ".fft values differ", dict(c, got=small(back.data.view(np.float32))))
+                            else:
+                                check_meta(R, "fft-meta", back.header, tsamp, tstart, dm, c, inf=True) or fired.add("fft-meta")
+                    except Exception as e:  # noqa: BLE001
+                        fail("fft-values", f".fft write / read raised {type(e).__name__}: {e}", c)
+
+        # call forms: products named by default (written to the working directory from header.basename), an explicit inffile=,
+        # a strided (non-contiguous) input array, prep_outfile(updates=...)
+        cwd = os.getcwd()
+        try:
+            os.chdir(d)
+            n = rng.randint(2, 40)
+            x = values_for(rng, "float32", 32, 2 * n, "any")[::2]                   # strided view
+            tsamp, tstart, dm = meta_values(rng)
+            hdr = mk_header(os.path.join(d, "dflt_src.tim"), 1, rng.choice(DEPTHS), n, tsamp, tstart, dm, data_type="time series")
+            want = np.ascontiguousarray(x)
+            case = {"dtype": "float32", "n": n, "values": small(want), "layout": "strided", "names": "default"}
+            ts = TimeSeries(x, hdr)
+            for name, wr, rd, inf in (("tim", ts.to_tim, TimeSeries.from_tim, False), ("dat", ts.to_dat, TimeSeries.from_dat, True)):
+                c = dict(case, path=f"TimeSeries.to_{name}()/from_{name}")
+                R.case(("dflt", name, want.tobytes()), regime=name)
+                try:
+                    f = wr()
+                    if name == "dat":       # the .inf under another name, handed over explicitly
+                        os.replace(os.path.splitext(f)[0] + ".inf", os.path.join(d, "elsewhere.inf"))
+                        back = rd(f, inffile=os.path.join(d, "elsewhere.inf"))
+                    else:
+                        back = rd(f)
+                    if back.header.nsamples != n or back.data.size != n:
+                        fail(f"{name}-nsamples", f"sample count read from the .{name} differs", dict(c, got=[back.header.nsamples, int(back.data.size)]))
+                    elif not same_bits(back.data, want):
+                        fail(f"{name}-values", f".{name} values differ", dict(c, got=small(back.data)))
+                    else:
+                        check_meta(R, f"{name}-meta", back.header, tsamp, tstart, dm, c, inf=inf) or fired.add(f"{name}-meta")
+                except Exception as e:  # noqa: BLE001
+                    fail(f"{name}-values", f".{name} write / read raised {type(e).__name__}: {e}", c)
+            z = np.ascontiguousarray(want[: n // 2 * 2]).view(np.complex64).copy()
+            nb, nt = z.size, max(2, 2 * (z.size - 1))
+            # (the bins are handed over contiguous: a strided complex64 view is kept as it is by the constructor and to_spec / to_fft
+            #  then raise ValueError from data.view(np.float32) -- refused, nothing written at a wrong width; see R.assume)
+            fs = FourierSeries(z, mk_header(os.path.join(d, "dflt_src.spec"), 1, 32, nt, tsamp, tstart, dm, data_type="time series"))
+            wantf = z.view(np.float32)
+            for name, wr, rd, inf in (("spec", fs.to_spec, FourierSeries.from_spec, False), ("fft", fs.to_fft, FourierSeries.from_fft, True)):
+                c = dict(case, path=f"FourierSeries.to_{name}()/from_{name}", n=nb, values=small(wantf))
+                R.case(("dflt", name, z.tobytes()), regime=name)
+                try:
+                    f = wr()
+                    if name == "fft":
+                        os.replace(os.path.splitext(f)[0] + ".inf", os.path.join(d, "elsewhere.inf"))
+                        back = rd(f, inffile=os.path.join(d, "elsewhere.inf"))
+                    else:
+                        back = rd(f)
+                    if back.data.size != nb or (back.header.nsamples != nt if name == "fft" else back.header.nsamples not in (2 * nb, nb)):
+                        fail(f"{name}-nsamples", f"sample count read from the .{name} differs", dict(c, got=[back.header.nsamples, int(back.data.size)]))
+                    elif not same_bits(back.data.view(np.float32), wantf):
+                        fail(f"{name}-values", f".{name} values differ", dict(c, got=small(back.data.view(np.float32))))
+                    else:
+                        check_meta(R, f"{name}-meta", back.header, tsamp, tstart, dm, c, inf=inf) or fired.add(f"{name}-meta")
+                except Exception as e:  # noqa: BLE001
+                    fail(f"{name}-values", f".{name} write / read raised {type(e).__name__}: {e}", c)
+            # a block that is a strided view (every other channel, a sample sub-range of a larger array), default file name
+            nchans, nsamps = rng.randint(1, 6), rng.randint(1, 20)
+            bigb = values_for(rng, "float32", 32, 2 * nchans * (nsamps + 3), "any").reshape(2 * nchans, nsamps + 3)
+            view = bigb[::2, 1:nsamps + 1]
+            c = {"path": "FilterbankBlock.to_file()", "dtype": "float32", "nchans": nchans, "nsamps": nsamps, "layout": "strided view", "names": "default",
+                 "values": small(view)}
+            R.case(("dflt", "to_file", np.ascontiguousarray(view).tobytes()), regime="to_file")
+            try:
+                blk = FilterbankBlock(view, mk_header(os.path.join(d, "dflt_blk.fil"), nchans, 8, nsamps, tsamp, tstart, dm), dm=dm)
+                f = blk.to_file()
+                del blk
+                r = FilReader(f)
+                if (os.path.getsize(f) - hdrlen_of(f)) * 8 != nchans * nsamps * 32:
+                    fail("to_file-width", "block written at a width other than the declared 32 bits", dict(c, data_bytes=os.path.getsize(f) - hdrlen_of(f)))
+                elif r.header.nsamples != nsamps:
+                    fail("to_file-nsamples", "inferred sample count differs", dict(c, inferred=r.header.nsamples))
+                elif r.header.nbits != 32 or not same_bits(r.read_block(0, nsamps).data, view):
+                    fail("to_file-values", "block read back differs in values / shape / order", c)
+                else:
+                    check_meta(R, "to_file-meta", r.header, tsamp, tstart, dm, c) or fired.add("to_file-meta")
+            except Exception as e:  # noqa: BLE001
+                fail("to_file-values", f"to_file() / re-read raised {type(e).__name__}: {e}", c)
+            # prep_outfile(updates=...): the timing metadata handed over as updates is what the product declares
+            nchans, nsamps = rng.randint(1, 5), rng.randint(1, 9)
+            vals = values_for(rng, "uint8", 8, nchans * nsamps, "int")
+            ts2, t02, dm2 = meta_values(rng)
+            path = os.path.join(d, "upd.fil")
+            c = {"path": "prep_outfile(updates=)+cwrite", "dtype": "uint8", "nbits": 8, "nsamps": nsamps, "nchans": nchans, "values": small(vals)}
+            R.case(("upd", vals.tobytes(), ts2, t02, dm2), regime="fil-8bit")
+            try:
+                w = mk_header(path, nchans, 32, nsamps, tsamp, tstart, dm).prep_outfile(path, updates={"tsamp": ts2, "tstart": t02, "dm": dm2}, nbits=8)
+                try:
+                    w.cwrite(vals)
+                finally:
+                    w.close()
+                r = FilReader(path)
+                if (os.path.getsize(path) - hdrlen_of(path)) != nchans * nsamps:
+                    fail("cwrite-width", "data written at a sample width other than the declared depth", dict(c, data_bytes=os.path.getsize(path) - hdrlen_of(path)))
+                elif r.header.nsamples != nsamps:
+                    fail("fil-nsamples", "inferred sample count differs from the samples written", dict(c, inferred=r.header.nsamples))
+                elif r.header.nbits != 8 or not same_bits(r.read_block(0, nsamps).data, vals.astype(np.float32).reshape(nsamps, nchans).T):
+                    fail("fil-values", "values / shape / order read back differ from what was written", c)
+                else:
+                    check_meta(R, "fil-meta", r.header, ts2, t02, dm2, c) or fired.add("fil-meta")
+            except Exception as e:  # noqa: BLE001
+                fail("fil-values", f"prep_outfile(updates=) / cwrite / re-read raised {type(e).__name__}: {e}", c)
+        finally:
+            os.chdir(cwd)
 
         # ---------------------------------------------------------------------------------------------
         # 4. the two library call sites that hand cwrite an array of another dtype
         # ---------------------------------------------------------------------------------------------
         import filutil
-        for nb_in in (8, 16, 32):
-            nchans, nsamps = rng.choice([2, 4, 8]), rng.randint(3, 30)
+        for nb_in in DEPTHS:                      # packed inputs too: the reader's uint8 blocks go to 32-bit .tim files / to another depth
+            nchans, nsamps = rng.choice([c for c in (2, 4, 8) if (c * nb_in) % 8 == 0]), rng.randint(3, 30)
             tsamp, tstart, dm = meta_values(rng)
             src = os.path.join(d, f"src_{nb_in}.fil")
             data = values_for(rng, FILE_DT[nb_in], nb_in, nsamps * nchans, "int").reshape(nsamps, nchans)
             if nb_in == 32:
                 data = np.abs(data) % 2
-            filutil.write_fil(src, data, nb_in, tsamp=tsamp, tstart=tstart)
+            filutil.write_fil(src, data, nb_in, tsamp=tsamp, tstart=tstart, dm=dm)
             # extract_chans: one 32-bit .tim per channel
             chan = rng.randrange(nchans)
             case = {"path": "extract_chans", "nbits_in": nb_in, "nchans": nchans, "nsamps": nsamps, "chan": chan, "values": small(data[:, chan])}
@@ -438,6 +662,8 @@ def run(R: vlib.Run):
                         fail("extract_chans-nsamples", "inferred sample count differs", dict(case, inferred=back.header.nsamples))
                     elif not same_bits(back.data, data[:, chan].astype(np.float32)):
                         fail("extract_chans-values", "channel values differ", dict(case, got=small(back.data)))
+                    else:       # the whole file from its first sample: tsamp, tstart and DM of the source are those of the product
+                        check_meta(R, "extract_chans-meta", back.header, tsamp, tstart, dm, case) or fired.add("extract_chans-meta")
             except Exception as e:  # noqa: BLE001
                 fail("extract_chans-values", f"extract_chans / re-read raised {type(e).__name__}: {e}", case)
             # requantize without rescaling: same values at another depth (all values here are 0/1 or representable)
@@ -448,13 +674,15 @@ def run(R: vlib.Run):
                 src2 = os.path.join(d, f"src2_{nb_in}_{nb_out}.fil")
                 nch2 = nchans if (nchans * nb_out) % 8 == 0 else 8
                 d2 = np.resize(small_vals, (nsamps, nch2))
-                filutil.write_fil(src2, d2, nb_in, tsamp=tsamp, tstart=tstart)
+                filutil.write_fil(src2, d2, nb_in, tsamp=tsamp, tstart=tstart, dm=dm)
                 case = {"path": "requantize", "nbits_in": nb_in, "nbits_out": nb_out, "nchans": nch2, "nsamps": nsamps, "values": small(d2)}
                 R.case(("requantize", nb_in, nb_out, d2.tobytes()), regime="requantize")
                 out = os.path.join(d, f"rq_{nb_in}_{nb_out}.fil")
                 try:
                     FilReader(src2).requantize(nb_out, outfile_name=out, gulp=rng.randint(1, nsamps + 2), quiet=True)
-                except Exception:  # noqa: BLE001  (refused: allowed for a dtype that is not the file's)
+                except Exception as e:  # noqa: BLE001  (refused: allowed for a dtype that is not the file's)
+                    if FILE_DT[nb_in] == FILE_DT[nb_out]:       # the reader's blocks already have the output file's sample type: no refusal allowed
+                        fail("requantize-values", f"requantize raised {type(e).__name__}: {e} although the blocks have the output file's sample type", case)
                     continue
                 try:
                     hl = hdrlen_of(out)
@@ -465,7 +693,8 @@ def run(R: vlib.Run):
                     if r.header.nsamples != nsamps:
                         fail("requantize-nsamples", "inferred sample count differs", dict(case, inferred=r.header.nsamples)); continue
                     if not same_bits(r.read_block(0, nsamps).data, d2.T.astype(np.float32)):
-                        fail("requantize-values", "values differ", case)
+                        fail("requantize-values", "values differ", case); continue
+                    check_meta(R, "requantize-meta", r.header, tsamp, tstart, dm, case) or fired.add("requantize-meta")
                 except Exception as e:  # noqa: BLE001
                     fail("requantize-values", f"re-read raised {type(e).__name__}: {e}", case)
 
@@ -700,12 +929,14 @@ def scale(R: vlib.Run):
                                     channel with 2**16-1, 2**16+1, 2**20+1, 2**22+1, 2**24+1 samples; the four other in-memory dtypes at
                                     2**16+8, 2**20+8, 2**22+8 (and 2**24+8 at >= 8 bits) elements; FileWriter(rescale=True) width at
                                     2**20+8 elements; ~2000 cwrite calls of 1..197 samples (200000 samples) and a
-                                    big/small/big history at every depth; random values over the whole range of the depth (float32: the
+                                    big/small/big history at every depth; read-only and strided 1-D own-type arrays of 2**20+8 elements
+                                    (one call, three calls) at every depth; random values over the whole range of the depth (float32: the
                                     whole finite range incl. max, subnormals, -0.0)
     FilterbankBlock.to_file         (nchans, nsamps) = (1,65537) (64,1025) (64,16385) (4096,257) (70000,3) (8,2**19+1) (2,2**23+1);
                                     every dtype at (64,16385) and (8,2**19+1); (64,70000) and (16,140000) blocks dedispersed in memory and written
     .tim .dat/.inf                  65535, 65536, 65537, 2**18+1, and -/=/+ 1 around 2**20, 2**22, 2**24 samples; every dtype at 65537, 2**20+1
-    .spec .fft/.inf                 32768, 32769, 65535..65537, 2**17, 2**19+1, 2**20, 2**22+1 and -/=/+ 1 around 2**21, 2**23 complex bins (2 words each)
+    .spec .fft/.inf                 32768, 32769, 65535..65537, 2**17, 2**19+1, 2**20, 2**22+1 and -/=/+ 1 around 2**21, 2**23 complex bins (2 words each);
+                                    the bins handed over as complex128 and as a real float64 array at 65537, 2**20+1
     extract_chans                   70000..140000 samples, 1/2/4/8/16/32-bit inputs, gulps 16384 / 5000 / 4097 / 100 (700 blocks) /
                                     65537 / 70001 / 1100000 (one 1.1e6-element cwrite), 300 channels extracted (two batches), files of
                                     4096 and 70000 channels, a start/nsamps sub-range
@@ -773,17 +1004,21 @@ def scale(R: vlib.Run):
         # -------------------------------------------------------------------------------------------------
         # 1. prep_outfile + cwrite (one call, many calls) + FilReader
         # -------------------------------------------------------------------------------------------------
-        def fil_case(own, n_base, nbits, dt, nsamps, nchans, off, blocks, blocks_rule):
+        def fil_case(own, n_base, nbits, dt, nsamps, nchans, off, blocks, blocks_rule, layout="flat"):
             E = nsamps * nchans
             vals = _scale_as(own[off:off + E], dt, nbits)
             want = np.asarray(vals, dtype=np.float32).reshape(nsamps, nchans)
+            if layout == "strided":             # the same samples as every other item of a buffer twice as long (1-D, not contiguous)
+                big = np.zeros(2 * E, dtype=vals.dtype); big[::2] = vals; vals = big[::2]
+            elif layout == "readonly":
+                vals = np.array(vals, copy=True); vals.setflags(write=False)
             tsamp, tstart, dm = meta()
             hdr_nbits = 8 if nbits != 8 else 32          # the header the writer is prepared from has another depth (overridden by nbits=)
             path = os.path.join(d, "f.fil")
             case = {"path": "prep_outfile+cwrite", "dtype": dt, "nbits": nbits, "nsamps": nsamps, "nchans": nchans, "elements": E,
-                    "cwrite_calls": len(blocks), "samples_per_call": blocks_rule, "header_nbits": hdr_nbits, "tsamp": tsamp, "tstart": tstart, "dm": dm,
+                    "cwrite_calls": len(blocks), "samples_per_call": blocks_rule, "layout": layout, "header_nbits": hdr_nbits, "tsamp": tsamp, "tstart": tstart, "dm": dm,
                     "data": f"props/c04.py: _scale_as(_scale_own(seed={seed}, nbits={nbits}, n={n_base})[{off}:{off + E}], '{dt}', {nbits})"}
-            R.case(("scale", "fil", nbits, dt, nsamps, nchans, len(blocks)), regime="scale")
+            R.case(("scale", "fil", nbits, dt, nsamps, nchans, len(blocks), layout), regime="scale")
             R.tick(case)
             try:
                 hdr = mk_header(path, nchans, hdr_nbits, nsamps, tsamp, tstart, dm)
@@ -830,6 +1065,10 @@ def scale(R: vlib.Run):
             fil_case(own, n_base, nbits, own_dt, N, 8, 0, blocks, "1 + (i*7919) % 197, the last one cut to end at 200000")
             hist = [(1 << 17) + 1, 1, 3, 1 << 17, 5, 70000, 16384, 65536]
             fil_case(own, n_base, nbits, own_dt, sum(hist), 8, 8, hist, hist)
+            # read-only and strided 1-D arrays of the file's own type, in one call and in three (2**20+8 elements)
+            for layout in ("readonly", "strided"):
+                fil_case(own, n_base, nbits, own_dt, (1 << 17) + 1, 8, 16, [(1 << 17) + 1], "all in one call", layout=layout)
+                fil_case(own, n_base, nbits, own_dt, (1 << 17) + 1, 8, 32, [1 << 16, 1, 1 << 16], [1 << 16, 1, 1 << 16], layout=layout)
             del own
 
         # rescale=True: only the width clause applies (the values are re-quantised on purpose); a refusal is allowed, as in run()
@@ -846,7 +1085,9 @@ def scale(R: vlib.Run):
                 try:
                     with FileWriter(path, mode="w", nbits=nbits, rescale=True) as w:
                         w.cwrite(arr)
-                except Exception:  # noqa: BLE001
+                except Exception as e:  # noqa: BLE001
+                    if nbits == 32 and dt == "float32":     # nothing is re-quantised at 32 bits: the array has the file's sample type
+                        R.fail("scale-cwrite-refused-own-type", f"at scale cwrite (rescale=True) raised {exc(e)} for a float32 array handed to a 32-bit writer", case)
                     rm(path); continue
                 if os.path.getsize(path) * 8 != n * nbits:
                     R.fail("scale-cwrite-width-rescale", "at scale rescaled data are written at a width other than the declared depth",
@@ -936,7 +1177,7 @@ def scale(R: vlib.Run):
                 del back
             rm(base + ".tim", base + ".dat", base + ".inf")
 
-        def fseries_case(dt, n, off):
+        def fseries_case(dt, n, off, given="complex64"):
             if dt == "float32":
                 z = np.ascontiguousarray(f32[off:off + 2 * n]).view(np.complex64)
             else:
@@ -944,19 +1185,25 @@ def scale(R: vlib.Run):
                 z = np.empty(n, dtype=np.complex64)
                 z.real = np.asarray(re_, dtype=np.float32); z.imag = np.asarray(im_, dtype=np.float32)
             wantf = z.view(np.float32).copy()
+            zin = z
+            if given == "complex128":           # the same bins held in memory as complex128
+                zin = z.astype(np.complex128)
+            elif given == "real":               # a real float64 array: n bins re + 0j
+                zin = z.real.astype(np.float64)
+                wantf[1::2] = 0.0
             tsamp, tstart, dm = meta()
             nt = 2 * (n - 1)
             base = os.path.join(d, "fs")
             data = (f"props/c04.py: complex64 bins (re, im) from _scale_own(seed={seed}, nbits=32, n={n32})[{off}:{off + 2 * n}]"
                     + ("" if dt == "float32" else f", first half as real and second half as imaginary parts through _scale_as(.., '{dt}', 32)"))
             for name, wr, rd, inf, counts in (("spec", lambda t: t.to_spec(base + ".spec"), FourierSeries.from_spec, False, (2 * n, n)),
-                                              ("fft", lambda t: t.to_fft(base), FourierSeries.from_fft, True, (nt, 2 * n, n))):
-                case = {"path": f"FourierSeries.to_{name}/from_{name}", "dtype": dt, "n_bins": n, "tsamp": tsamp, "tstart": tstart, "dm": dm, "data": data}
-                R.case(("scale", name, dt, n), regime="scale")
+                                              ("fft", lambda t: t.to_fft(base), FourierSeries.from_fft, True, (nt,))):
+                case = {"path": f"FourierSeries.to_{name}/from_{name}", "dtype": dt, "given_as": given, "n_bins": n, "tsamp": tsamp, "tstart": tstart, "dm": dm, "data": data}
+                R.case(("scale", name, dt, n, given), regime="scale")
                 R.tick(case)
                 try:
                     fh = mk_header(base + "_src.spec", 1, 8, nt, tsamp, tstart, dm, data_type="time series")
-                    fs = FourierSeries(z, fh)
+                    fs = FourierSeries(zin, fh)
                     f = wr(fs)
                     del fs
                     R.tick(dict(case, step="read back"))
@@ -978,6 +1225,9 @@ def scale(R: vlib.Run):
                 for n in (65537, (1 << 20) + 1):
                     tseries_case(dt, n, 100)
                     fseries_case(dt, n, 200)
+        for given in ("complex128", "real"):
+            for n in (65537, (1 << 20) + 1):
+                fseries_case("float32", n, 300, given=given)
         del f32
 
         # -------------------------------------------------------------------------------------------------
